@@ -74,3 +74,16 @@ Print Assumptions C03_batch_accepts_if_all_accept.
     passes for at most one value of that member's weight (C08_bad_weight_unique); the weights are oracle
     outputs on an input containing every proof of the chunk completely (C08).  That last step is the
     random-oracle argument and is NOT a theorem. *)
+
+(** the scalars the model of [RangeProof::verify] hands to the final multiscalar multiplication (the ones
+    compared with the implementation's on every run) are [final_msm] of the members' accumulated terms —
+    the object of [C03_batch_is_weighted_residuals]; and the chunk is accepted only if that product is
+    the identity *)
+Theorem C03_chunk_scalars : forall (K : Fld) ofN mode ms ws z r sc,
+  verify_chunk K ofN mode ms ws z = (r, Some sc) ->
+  exists max_mn max_index first pad,
+    consistency K ms = Some (max_mn, max_index) /\ hd first ms = first /\
+    sc = final_msm K (acc_all K (acc_init K max_mn (mb_T K first)) (terms_list K ofN ms ws)) pad /\
+    (r = Err \/ z = true).
+Proof. exact verify_chunk_scalars. Qed.
+Print Assumptions C03_chunk_scalars.
